@@ -20,7 +20,8 @@ def _mass(kind, n, rng):
     if kind == 'identity':
         return np.eye(n)
     B = rng.randint(-2, 3, size=(n, n)) / 2.0
-    return B @ B.T + n * np.eye(n)
+    Msp = B @ B.T + n * np.eye(n)
+    return np.asfortranarray(Msp) if kind == 'spd_f' else Msp          # 'spd_f': the same matrix in column-major storage
 
 
 def chk_const_rhs(c):
@@ -31,7 +32,8 @@ def chk_const_rhs(c):
     n = c['n']
     M = _mass(c['mass'], n, rng)
     cvec = rng.randint(1, 4, size=n).astype(float)
-    rhs = cvec if M is None else M @ cvec
+    M_before = None if M is None else np.array(M, copy=True)
+    rhs = cvec if M is None else M_before @ cvec
     F = lambda y: rhs.copy()
     J = lambda y: np.zeros((n, n))
     x0 = rng.randint(-2, 3, size=n).astype(float)
@@ -50,6 +52,8 @@ def chk_const_rhs(c):
     times = np.asarray(times, dtype=float)
     assert len(times) == len(sols), '%d times but %d states' % (len(times), len(sols))
     assert abs(times[0] - t0) <= 1e-12 * max(1.0, abs(t0)) and np.allclose(np.diff(times), tau, rtol=1e-9, atol=0), 'times are not t0 + k*tau'
+    if M is not None:
+        assert np.array_equal(M, M_before), 'the integrator changed the mass matrix it was given (max change %g)' % np.max(np.abs(M - M_before))
     want = x0 + (times[-1] - t0) * cvec
     err = np.max(np.abs(np.asarray(sols[-1]) - want))
     assert err <= 1e-9 * max(1.0, np.max(np.abs(want))) * max(1.0, steps * 1e-2), \
@@ -105,6 +109,10 @@ def generate(tier, rng):
                     continue
                 yield 'const_rhs', {'method': method, 'tau': tau, 'mass': mass, 'n': 1 if mass == 'identity' else 3, 't0': [0.0, 2.5][k % 2], 'steps': 20, 'seed': k % 7}
 
+    # column-major mass matrix (and a 1x1 one): the integrators must not write into it (dirk34 excluded: known finding, see above)
+    for j, method in enumerate(m_ for m_ in DIRK_CONST + ADAPTIVE if m_ != 'dirk34'):
+        for n_ in (3, 1):
+            yield 'const_rhs', {'method': method, 'tau': 1e-2, 'mass': 'spd_f', 'n': n_, 't0': 0.0, 'steps': 5, 'seed': 60 + j}
     for k, meth in enumerate(('ros3p', 'ros3pw', 'rowdaind2', 'rodasp', 'rosi2p1')):
         for tau in (0.1, 0.01):
             for mass in ('identity', 'spd'):
